@@ -66,14 +66,33 @@ NEEDS3 = {
  'C20r3/A': 'a TLS server and a channel endpoint: the TLS accept loop serves connections without upgrade support',
  'C20r3/B': 'a channel handler using read_exact on a message that arrives in two or more TCP segments',
 }
+NEEDS4 = {
+ 'C01r4/A': 'a path that input_path_to_segments refuses (`/%ff`, `/a/../b`) and an endpoint reachable with zero segments: the error is swallowed and the root endpoint answers',
+ 'C01r4/B': 'a wildcard endpoint and `%2F` inside a segment matched by the wildcard: the list handed to the handler is re-split on `/`',
+ 'C04r4/A': 'a HEAD request for a path that has a GET endpoint but no HEAD endpoint: the GET handler runs',
+ 'C04r4/B': 'an endpoint registered with an extension method containing a lower-case letter (`purge`)',
+ 'C09r4/A': 'a chunked request body of two or more chunks: only the first chunk is delivered',
+ 'C09r4/B': 'a path segment made only of three or more dots (`...`): refused as a dot-segment',
+ 'C10r4/A': 'a Content-Type that starts with the endpoint\'s media type (`application/json-patch+json`)',
+ 'C10r4/B': 'a text path parameter whose percent-escapes are not UTF-8 (`%FF`): replaced by U+FFFD and delivered',
+ 'C11r4/A': 'a small Content-Length header next to chunked framing with a body over the limit (buffered extractors)',
+ 'C11r4/B': 'an endpoint whose request_body_max_bytes is set twice through the builder: the first value stays',
+ 'C12r4/A': 'an illegal redirect location longer than 128 bytes with a multi-byte character across byte 128: panic instead of an error',
+ 'C12r4/B': 'a declared-headers struct whose serde field name contains an upper-case letter',
+ 'C13r4/A': 'more than 65536 requests served by one process: the request id repeats',
+ 'C13r4/B': 'a status code 309..=399 offered to ClientErrorStatusCode',
+ 'C14r4/A': 'a page selector with a 128-bit integer or a map with integer keys (token parsed through serde\'s buffered Content)',
+ 'C14r4/B': 'a token longer than 512 bytes with a multi-byte character across byte 16: panic instead of 400',
+}
 import sys
 WAVE3 = '--wave3' in sys.argv
-items = NEEDS3.items() if WAVE3 else NEEDS.items()
+WAVE4 = '--wave4' in sys.argv
+items = NEEDS4.items() if WAVE4 else NEEDS3.items() if WAVE3 else NEEDS.items()
 for key, needs in items:
     idr, ab = key.split('/')
     pid = idr[:-2]
     src = f'{V}/.build/incoming/{key}'
-    dst = f'{V}/seeded/{pid}-{("E" if ab == "A" else "F") if WAVE3 else ("C" if ab == "A" else "D")}'
+    dst = f'{V}/seeded/{pid}-{("G" if ab == "A" else "H") if WAVE4 else ("E" if ab == "A" else "F") if WAVE3 else ("C" if ab == "A" else "D")}'
     os.makedirs(dst, exist_ok=True)
     for f in ('patch.diff', 'demo.rs', 'demo_howto.md', 'notes.md'):
         shutil.copyfile(f'{src}/{f}', f'{dst}/{f}')
@@ -82,7 +101,7 @@ for key, needs in items:
     assert conf['applies'] and conf['demo_on_head_rc'] == 0 and conf['demo_with_patch_rc'] != 0 and conf['suite_with_patch_ok'], conf
     notes = open(f'{src}/notes.md').read()
     summary = ' '.join(notes.split())[:300]
-    meta = {'property': pid, 'variant': os.path.basename(dst).split('-')[1], 'wave': 3 if WAVE3 else 2,
+    meta = {'property': pid, 'variant': os.path.basename(dst).split('-')[1], 'wave': 4 if WAVE4 else 3 if WAVE3 else 2,
             'origin': 'fresh sub-agent given only the property text (plus a note on which places earlier seeders had already changed) and a scratch worktree of /repo',
             'base_commit': subprocess.run(['git', '-C', '/repo', 'rev-parse', '--short', 'HEAD'], capture_output=True, text=True).stdout.strip(),
             'demo_test': f'dropshot/tests/{conf["demo_test"]}.rs (copy demo.rs there; cargo nextest run --offline -p dropshot --test {conf["demo_test"]})',
